@@ -23,10 +23,11 @@ def run(ctx):
     quick = ctx.tier == "quick"
     ctx.level = "exploration"
     ctx.assumptions += ["TLC 1.8.0 + CommunityModules (the spec is a per-call monitor here: a TLA+ model adds little to a totality property)",
-                        "inputs: the repository's corpora, statements of every top-level grammar form, literal extremes, invalid UTF-8, nesting up to 80 (thorough 400), "
+                        "inputs: the repository's corpora, the grammar corpus (spec/Frontend/ExprGen.tla expression pairs in expression positions, ReadOnlyGate.tla clause skeletons of <= 3 clauses), statements of every top-level grammar form, literal extremes, invalid UTF-8, nesting up to 80 (thorough 400), "
                         "unbalanced delimiters, seeded token-level mutations of the corpus, 31 expression kinds in 19 expression positions with every token-boundary prefix and stray delimiters "
                         "(the trees ANTLR's error recovery produces), numbers no Go type can hold in 18 number positions and characters no token can hold (unterminated quotes, #, ?, !, NUL, "
                         "invalid UTF-8, ...) at the end of and inside valid queries (both must be rejected: a model without them has a hole)", "time budget 10 s per call (the unchanged tree needs < 0.25 s for the largest input), best of three"]
+    ctx.grammar_corpus(maxlen=3)
     trace = os.path.join(ctx.work, "fuzz.ndjson")
     args = ["front", "fuzz", "--out", trace, "--seed", str(ctx.seed), "--per-text", "3" if quick else "40"] + ([] if quick else ["--deep"])
     ctx.vh(args, timeout=3000)
